@@ -960,3 +960,22 @@ def c17_after_run(api, run):
         got = set(s.obj.exit_jobs(discard_forever=False, compute_backlinks=False))
         if got != want:
             fail(api, "C17: after the run, exit_jobs(compute_backlinks=False) of %s is wrong" % s, run)
+    for s in run.scheds():
+        if run.started(s) is None or len(s.children) < 2:
+            continue
+        # the graph is edited after the run (whatever way the run of s ended), then queried again
+        a, b = s.children[0], s.children[-1]
+        if a in b.reqs:
+            b.obj.requires(a.obj, remove=True)
+            b.reqs.remove(a)
+        else:
+            b.obj.requires(a.obj)
+            b.reqs.append(a)
+        api.note("c17_edits_after_run")
+        for m in s.children:
+            want = set(k.obj for k in s.children if m in k.reqs)
+            got = list(s.obj.successors(m.obj))
+            if set(got) != want or len(got) != len(set(got)):
+                fail(api, "C17: after the run and an edit, successors(%s) of %s = %s, expected %s"
+                     % (m, s, sorted(str(getattr(x, "_node", x)) for x in got),
+                        sorted(str(k) for k in s.children if m in k.reqs)), run)
